@@ -257,9 +257,13 @@ impl C16 {
     /// Refusing is fine; if a tree is handed back it must be the stored one (same root, leaves, leaf
     /// count, metadata): the location holds acknowledged updates.
     fn reopen_other_depth(&self, hist: &[Op], cfg: &Cfg, d2: usize) -> Vec<Discrepancy> {
+        // d2 == 0: the depth stays, but between closing and reopening other configuration strings naming the same
+        // location are parsed (accepted or refused, never opened): parsing must leave the stored tree alone
+        let parse_only = d2 == 0;
+        let d2 = if parse_only { cfg.depth } else { d2 };
         let mut out = vec![];
         let mut case = case_json("reopen-other-depth", hist, cfg, None);
-        case["requested_depth"] = json!(d2);
+        case["requested_depth"] = json!(if parse_only { 0 } else { d2 });
         let path = scratch_dir("c16d");
         let res = (|| -> Result<(), String> {
             fault::disarm();
@@ -277,16 +281,34 @@ impl C16 {
             }
             let before = observe(&t, cfg.depth)?;
             drop(t);
+            if parse_only {
+                let pth = path.to_str().unwrap();
+                for j in [
+                    json!({"path": pth, "temporary": true}),
+                    json!({"path": pth, "temporary": true, "cache_capacity": 1024, "mode": "LowSpace"}),
+                    json!({"path": pth, "temporary": false, "mode": "NoSuchMode"}),
+                    json!({"path": pth, "temporary": false, "cache_capacity": -1}),
+                    json!({"path": pth, "temporary": "yes"}),
+                    json!({"path": pth}),
+                ] {
+                    let _ = guard(|| PmtreeConfig::from_str(&j.to_string()).map(|_| ()));
+                }
+                let _ = guard(|| PmtreeConfig::from_str(&format!("{{\"path\": \"{pth}\", \"temporary\": tru")).map(|_| ()));
+            }
             let cfg2 = Cfg { depth: d2, ..cfg.clone() };
             let t2 = match guard(|| open(&path, &cfg2)) {
                 Err(p) => {
                     out.push(Discrepancy { key: "C16/reopen-other-depth/panic".into(), case: case.clone(), detail: p });
                     return Ok(());
                 }
+                Ok(Err(e)) if parse_only => {
+                    out.push(Discrepancy { key: "C16/reopen-after-config-parsing/cannot-reopen".into(), case: case.clone(), detail: format!("after other configuration strings for the location were parsed, the stored tree does not open: {e}") });
+                    return Ok(());
+                }
                 Ok(Err(_)) => return Ok(()), // refused
                 Ok(Ok(t2)) => t2,
             };
-            let key = |s: &str| format!("C16/reopen-other-depth/{s}");
+            let key = |s: &str| if parse_only { format!("C16/reopen-after-config-parsing/{s}") } else { format!("C16/reopen-other-depth/{s}") };
             let after = match observe(&t2, cfg.depth) {
                 Ok(a) => a,
                 Err(p) => {
@@ -772,7 +794,7 @@ impl Prop for C16 {
         }
         ev.set("adapter_as_map_runs", json!(mitems.len()));
         ev.set("adapter_as_map_keys", json!(nkeys));
-        let ditems: Vec<(usize, usize)> = (0..hs.len()).flat_map(|i| [base.depth - 1, base.depth + 1].into_iter().map(move |d| (i, d))).collect();
+        let ditems: Vec<(usize, usize)> = (0..hs.len()).flat_map(|i| [base.depth - 1, base.depth + 1, 0].into_iter().map(move |d| (i, d))).collect();
         let rd = par_map(&ditems, ncpu(), |_, (i, d)| self.reopen_other_depth(&hs[*i], &base, *d));
         let n_other_depth = ditems.len();
         for o in rd {
@@ -928,7 +950,7 @@ impl Prop for C16 {
         ev.set("compression_available", json!(comp_ok));
         ev.set("max_storage_ops_per_history", json!(ws.iter().max().cloned().unwrap_or(0)));
         ev.set("exhaustive", json!(true));
-        ev.set("rule", json!("histories: every sequence of length <= L (3 quick / 4 thorough) over {set(0,a), set(5,b), delete(0), append(a), write_range(2,[a,b]), batch(0,[b],{0}), batch(remove {0,2}), set_metadata, flush} on a persistent tree of depth 3; (0) the storage adapter as a map: distinct values under 30-odd 8-byte keys that differ in exactly one byte or agree in their low 1 / 2 / 4 bytes, written singly and in one batch (5 splits x 3 orders), read back after writing, after overwriting every other key, and after flush + reopen; (1) each history + flush + drop + reopen must give root, leaves, leaf count and metadata of the ideal tree, and four further operations on the reopened tree must follow the ideal tree; the same with a tree of depth 2 or 4 requested at the location (refusal, or the stored tree unchanged); a spread of histories under every storage configuration; (2) for each history the number W of storage operations is measured by a dry run and for every k < W the k-th operation is made to fail: the tree operation in progress must return Err, then flush, drop, reopen must show every acknowledged update outside the failed operation's targets; the same at depth 20 for histories of length <= 1 (quick) / 2 (thorough) over positions 0, 2^19, 2^20-1 (about 20 storage writes per operation); faults during creation; reopening while the previous instance still holds the storage lock for {0,3,25,120} ms; (3) crash points: for every history up to length 2 (quick, plus every [w1, flush, w2]) / 3 (thorough) followed by [flush, write] a child process runs it, records each acknowledged operation in a side file and aborts at the k-th storage operation, for every k; after recovery everything acknowledged up to the last acknowledged flush must be there; distinct_nontrivial = distinct (history, k) fault positions + crash points"));
+        ev.set("rule", json!("histories: every sequence of length <= L (3 quick / 4 thorough) over {set(0,a), set(5,b), delete(0), append(a), write_range(2,[a,b]), batch(0,[b],{0}), batch(remove {0,2}), set_metadata, flush} on a persistent tree of depth 3; (0) the storage adapter as a map: distinct values under 30-odd 8-byte keys that differ in exactly one byte or agree in their low 1 / 2 / 4 bytes, written singly and in one batch (5 splits x 3 orders), read back after writing, after overwriting every other key, and after flush + reopen; (1) each history + flush + drop + reopen must give root, leaves, leaf count and metadata of the ideal tree, and four further operations on the reopened tree must follow the ideal tree; the same with a tree of depth 2 or 4 requested at the location (refusal, or the stored tree unchanged), and with seven other configuration strings naming the location parsed (never opened) between close and reopen; a spread of histories under every storage configuration; (2) for each history the number W of storage operations is measured by a dry run and for every k < W the k-th operation is made to fail: the tree operation in progress must return Err, then flush, drop, reopen must show every acknowledged update outside the failed operation's targets; the same at depth 20 for histories of length <= 1 (quick) / 2 (thorough) over positions 0, 2^19, 2^20-1 (about 20 storage writes per operation); faults during creation; reopening while the previous instance still holds the storage lock for {0,3,25,120} ms; (3) crash points: for every history up to length 2 (quick, plus every [w1, flush, w2]) / 3 (thorough) followed by [flush, write] a child process runs it, records each acknowledged operation in a side file and aborts at the k-th storage operation, for every k; after recovery everything acknowledged up to the last acknowledged flush must be there; distinct_nontrivial = distinct (history, k) fault positions + crash points"));
         if let Some((i, k)) = fitems.get(fitems.len() / 2) {
             ev.sample(case_json("fault", &hs[*i], &base, Some(*k)));
         }
